@@ -1,6 +1,6 @@
 (* C09 - A session with four conforming clients always runs to completion (every schedule).
    Only statements, each closed by [exact]; proofs are in the files imported below. *)
-From BE Require Import Model.Session Model.SessionTie Spec.SessionSpec Proofs.Kahn Proofs.Session Proofs.SessionExamples Proofs.SessionPassOut Proofs.Wire Model.Conform Proofs.SessionConform Proofs.SessionAdmission Proofs.SessionArrivals.
+From BE Require Import Model.Session Model.SessionTie Spec.SessionSpec Proofs.Kahn Proofs.Session Proofs.SessionExamples Proofs.SessionPassOut Proofs.Wire Model.Conform Proofs.SessionConform Proofs.SessionAdmission Proofs.SessionArrivals Proofs.SessionAbort.
 From BE Require Import Gen.Skeleton Proofs.SkeletonPin.
 From Coq Require Import ZArith Permutation.
 Local Open Scope nat_scope.
@@ -110,6 +110,12 @@ Theorem C09_any_order_of_the_four :
     (forall p, chan f (tr_down 4 (conn_map reqs p)) = down_view boards ns ew (seated_scripts x) p).
 Proof. exact conforming_session_any_order. Qed.
 Print Assumptions C09_any_order_of_the_four.
+
+(* and for EVERY input, conforming or not: no schedule of the network runs for ever (every step descends in a well-founded order) *)
+Theorem C09_no_infinite_schedule :
+  forall s, Acc snext s.
+Proof. exact no_infinite_schedule. Qed.
+Print Assumptions C09_no_infinite_schedule.
 
 (* the special case proved first: ANY non-empty list of boards (arbitrary deals, dealers, vulnerabilities, ids), four clients arriving N, E, S, W, everybody passing: a schedule exists that drives the network to the state where every process has returned, with a log of one record per board *)
 Theorem C09_passed_out_sessions_complete :
